@@ -148,7 +148,7 @@ class Env:
         self.dbs = os.path.join(self.root, "db")
         for d in (self.cwd, self.socks, self.dbs):
             os.mkdir(d)
-        self.zy = sched.Zygote(self.cwd)
+        self.zy = sched.ZygotePool(6, self.cwd)
         self.n = 0
         self.templates = {}
 
